@@ -43,7 +43,11 @@ __CPROVER_ensures(RET ==> (__CPROVER_is_fresh(output_buffer->buffer, output_buff
     output_buffer->depth == __CPROVER_old(output_buffer->depth))) \
 __CPROVER_ensures(TR(output_buffer)) \
 __CPROVER_ensures(vf_pc_log_wr((const void*)item, __CPROVER_old(output_buffer->offset), __CPROVER_old(output_buffer->depth), output_buffer, RET, (kindv))) \
-__CPROVER_assigns(output_buffer->buffer, output_buffer->length, output_buffer->offset, output_buffer->depth, GHOST_ALLOC, g_nul_at);
+__CPROVER_assigns(output_buffer->buffer, output_buffer->length, output_buffer->offset, GHOST_ALLOC, g_nul_at);
+/* The depth is not in the view's frame: a successful writer leaves it as it found it (print_value's contract), so on the success path this is exact
+ * and the field stays a constant during symex (the tab loops of print_object then have concrete bounds).  A FAILING composite writer may leave the
+ * depth incremented; print_array / print_object return at once in that case (clause ALL_OK_OR_FAIL: a failed callee is the last call) and promise
+ * nothing about the depth of a failed print, so the under-approximated frame on that path is never read. */
 WRITER_PC(print_value_pc, const cJSON * const, D_VALUE)
 WRITER_PC(print_string_ptr_pc, const unsigned char * const, D_STRING)
 
@@ -116,6 +120,13 @@ __CPROVER_assigns(GHOST_PC, GHOST_ALLOC; OB != NULL: OB->buffer, OB->length, OB-
 #ifndef PO_K
 #define PO_K 2
 #endif
+#ifdef PO_DEPTH     /* one unit per nesting depth: the tab reservations then have concrete sizes (a byte-writing loop into a block of symbolic size does not scale, DESIGN 6).
+ * The two fields are STORED by a function called from the requires clause (an assumed equality would leave them symbolic during symex). */
+static _Bool vf_po_fix(printbuffer *ob) { ob->depth = PO_DEPTH; ob->format = PO_FMT; return 1; }
+#define PO_DEPTH_PRE (vf_po_fix(OB) && OB->depth == PO_DEPTH)
+#else
+#define PO_DEPTH_PRE (OB->depth <= PO_DMAX)
+#endif
 #ifdef PO_FMT
 #define PO_F (PO_FMT)       /* one unit per formatting mode: the reservation indices are then constants */
 #define PO_FMT_PRE (OB->format == PO_FMT)
@@ -125,7 +136,14 @@ __CPROVER_assigns(GHOST_PC, GHOST_ALLOC; OB != NULL: OB->buffer, OB->length, OB-
 #endif
 #define PO_OLEN ((size_t)(PO_F ? 2 : 1))
 #define PO_CL ((size_t)(PO_F ? 2 : 1))
-#define PO_D1 (OLD_DEPTH + 1)
+#ifdef PO_DEPTH
+#define PO_OD ((size_t)PO_DEPTH)   /* the unit fixes the depth: a constant, so that window indices below are constants */
+#else
+#define PO_OD OLD_DEPTH
+#endif
+#define PO_D1 (PO_OD + 1)
+/* window byte i (a literal) is a tab if i < n: written with constant indices only (a symbolic index into every candidate window costs millions of variables) */
+#define TABS_UPTO(w, n) (((n) < 1 || (w)[0] == '\t') && ((n) < 2 || (w)[1] == '\t') && ((n) < 3 || (w)[2] == '\t') && (n) <= 3)
 #define PO_STRIDE (PO_F ? 3 : 2)
 #define PO_TB(j) (1 + (j) * PO_STRIDE)
 #define PO_CI(j) (PO_TB(j) + (PO_F ? 1 : 0))
@@ -149,7 +167,7 @@ __CPROVER_assigns(GHOST_PC, GHOST_ALLOC; OB != NULL: OB->buffer, OB->length, OB-
 #define PO_CLOSE (1 + PO_N * PO_STRIDE)
 #define EL(i) g_el[i]
 /* indentation: depth tabs reserved and written where the member starts */
-#define PO_TABS(j, start) (EL(PO_TB(j)).off == (start) && EL(PO_TB(j)).needed >= PO_D1 && EL(PO_TB(j)).needed <= PO_D1 + 4 && (!EL(PO_TB(j)).ok || g_k >= PO_D1 || EL(PO_TB(j)).win[g_k] == '\t'))
+#define PO_TABS(j, start) (EL(PO_TB(j)).off == (start) && EL(PO_TB(j)).needed >= PO_D1 && EL(PO_TB(j)).needed <= PO_D1 + 4 && (!EL(PO_TB(j)).ok || TABS_UPTO(EL(PO_TB(j)).win, PO_D1)))
 /* the key is printed as a string right behind the indentation (or where the member starts) */
 #define PO_KEY(j, start) (g_wl[2*(j)].item == (const void*)PO_NODE(j)->string && g_wl[2*(j)].kind == D_STRING && g_wl[2*(j)].off_in == (PO_F ? EL(PO_TB(j)).off + PO_D1 : (start)))
 /* ':' (and a tab when formatting) where the key's text ends */
@@ -159,7 +177,8 @@ __CPROVER_assigns(GHOST_PC, GHOST_ALLOC; OB != NULL: OB->buffer, OB->length, OB-
 #define PO_VAL(j) (g_wl[2*(j)+1].item == (const void*)PO_NODE(j) && g_wl[2*(j)+1].kind == D_VALUE && g_wl[2*(j)+1].off_in == EL(PO_CI(j)).off + PO_CL && g_wl[2*(j)+1].depth_in == PO_D1)
 /* ',' exactly when another member follows, a newline when formatting, then the terminator, where the value's text ends */
 #define PO_SEP(j) (EL(PO_SI(j)).off == g_wl[2*(j)+1].uo_out && EL(PO_SI(j)).needed >= PO_SEPL(j) + 1 && EL(PO_SI(j)).needed <= PO_SEPL(j) + 5 && \
-    (!EL(PO_SI(j)).ok || ((!PO_HASNEXT(j) || EL(PO_SI(j)).win[0] == ',') && (!PO_F || EL(PO_SI(j)).win[PO_HASNEXT(j) ? 1 : 0] == '\n') && EL(PO_SI(j)).win[PO_SEPL(j)] == 0)))
+    (!EL(PO_SI(j)).ok || ((!PO_HASNEXT(j) || EL(PO_SI(j)).win[0] == ',') && (!PO_F || (PO_HASNEXT(j) ? EL(PO_SI(j)).win[1] == '\n' : EL(PO_SI(j)).win[0] == '\n')) && \
+    (PO_SEPL(j) == 0 ? EL(PO_SI(j)).win[0] == 0 : PO_SEPL(j) == 1 ? EL(PO_SI(j)).win[1] == 0 : EL(PO_SI(j)).win[2] == 0))))
 #define PO_MEMBER(j, start) \
 __CPROVER_ensures((OB != NULL && PO_N > (j) && PO_F && g_el_n > (size_t)PO_TB(j)) ==> PO_TABS(j, start)) /*@C05 C04 C09*/ \
 __CPROVER_ensures((OB != NULL && PO_N > (j) && g_wl_n > (size_t)(2*(j))) ==> PO_KEY(j, start)) /*@C05 C04*/ \
@@ -172,7 +191,7 @@ __CPROVER_requires(__CPROVER_is_fresh(item, sizeof(cJSON)) && NODE_IN(CH0, NODE_
 #else
 __CPROVER_requires(__CPROVER_is_fresh(item, sizeof(cJSON)) && NODE_IN(CH0, CH0->next == NULL))
 #endif
-__CPROVER_requires(OB == NULL || (__CPROVER_is_fresh(OB, sizeof(printbuffer)) && PR_SHAPE(OB) && OB->depth <= PO_DMAX && PO_FMT_PRE))
+__CPROVER_requires(OB == NULL || (__CPROVER_is_fresh(OB, sizeof(printbuffer)) && PR_SHAPE(OB) && PO_DEPTH_PRE && PO_FMT_PRE))
 __CPROVER_requires(g_el_n == 0 && g_wl_n == 0)
 __CPROVER_ensures(OB == NULL ==> (!RET && g_el_n == 0 && g_wl_n == 0)) /*@C05*/
 /* opening brace (and a newline when formatting) at the offset the writer was given */
@@ -183,12 +202,19 @@ PO_MEMBER(0, PO_MSTART0)
 PO_MEMBER(1, PO_MSTART1)
 #endif
 /* success: every member was printed; behind the last one come depth-1 tabs when formatting, the closing brace and the terminator; the offset
- * points at that text (the caller's update_offset moves on); the depth is what it was */
-__CPROVER_ensures(RET ==> (g_wl_n == (size_t)(2 * PO_N) && g_el_n == (size_t)PO_CLOSE + 1 && EL(PO_CLOSE).off == PO_END && OB->offset == PO_END && OB->depth == OLD_DEPTH)) /*@C05 C04 C09*/
-__CPROVER_ensures((RET && !PO_F) ==> (EL(PO_CLOSE).needed >= 2 && EL(PO_CLOSE).needed <= 6 && EL(PO_CLOSE).win[0] == '}' && EL(PO_CLOSE).win[1] == 0)) /*@C05 C04 C09*/
-__CPROVER_ensures((RET && PO_F) ==> (EL(PO_CLOSE).needed >= OLD_DEPTH + 2 && EL(PO_CLOSE).needed <= OLD_DEPTH + 6 && EL(PO_CLOSE).win[OLD_DEPTH] == '}' && EL(PO_CLOSE).win[OLD_DEPTH + 1] == 0 && \
-    (g_k >= OLD_DEPTH || EL(PO_CLOSE).win[g_k] == '\t'))) /*@C05 C04 C09*/
-__CPROVER_ensures(RET ==> (OB->offset >= OLD_OFF && OB->length <= INT_MAX && OB->offset + EL(PO_CLOSE).needed + 1 <= OB->length)) /*@C09*/
+ * points at that text (the caller's update_offset moves on); the depth is what it was.  One instance per member count, so that the index of the
+ * closing reservation is a constant. */
+#define PO_CLOSING(n, ci, endoff) \
+__CPROVER_ensures((RET && PO_N == (n)) ==> (g_wl_n == (size_t)(2 * (n)) && g_el_n == (size_t)(ci) + 1 && EL(ci).off == (endoff) && OB->offset == (endoff) && OB->depth == OLD_DEPTH && OLD_DEPTH == PO_OD)) /*@C05 C04 C09*/ \
+__CPROVER_ensures((RET && PO_N == (n) && !PO_F) ==> (EL(ci).needed >= 2 && EL(ci).needed <= 6 && EL(ci).win[0] == '}' && EL(ci).win[1] == 0)) /*@C05 C04 C09*/ \
+__CPROVER_ensures((RET && PO_N == (n) && PO_F) ==> (EL(ci).needed >= PO_OD + 2 && EL(ci).needed <= PO_OD + 6 && TABS_UPTO(EL(ci).win, PO_OD) && \
+    (PO_OD == 0 ? (EL(ci).win[0] == '}' && EL(ci).win[1] == 0) : PO_OD == 1 ? (EL(ci).win[1] == '}' && EL(ci).win[2] == 0) : (EL(ci).win[2] == '}' && EL(ci).win[3] == 0)) && PO_OD <= 2)) /*@C05 C04 C09*/ \
+__CPROVER_ensures((RET && PO_N == (n)) ==> (OB->offset >= OLD_OFF && OB->length <= INT_MAX && OB->offset + EL(ci).needed + 1 <= OB->length)) /*@C09*/
+PO_CLOSING(0, 1, PO_MSTART0)
+PO_CLOSING(1, 1 + PO_STRIDE, PO_AFTER(0))
+#if PO_K >= 2
+PO_CLOSING(2, 1 + 2 * PO_STRIDE, PO_AFTER(1))
+#endif
 ALL_OK_OR_FAIL
 __CPROVER_ensures(OB == NULL || TR(OB)) /*@C08*/
 __CPROVER_assigns(GHOST_PC, GHOST_ALLOC; OB != NULL: OB->buffer, OB->length, OB->offset, OB->depth);
